@@ -237,7 +237,23 @@ fn rand_set(rng: &mut Rng) -> TokSet {
         } else {
             let re = rand_re(rng, 2, &focus);
             if re.nullable() { continue; }
+            if let Re::Lit(v) = &re { if lits.contains(v) { continue; } lits.push(v.clone()); }
             toks.push(Tok { prec, is_string: false, re });
+        }
+    }
+    // directed family for the precedence cut-off: x (high), x y z (high, keeps the DFA alive), x y+ (low)
+    if !with_word && rng.chance(1, 5) {
+        let (x, y, z) = (pick_sym(rng, &focus), pick_sym(rng, &focus), *rng.pick(&ALPHA));
+        let hi = rng.range(1, 2) as i32;
+        let fam = vec![
+            Tok { prec: hi, is_string: rng.chance(1, 2), re: Re::Lit(vec![x]) },
+            Tok { prec: hi - rng.below(2) as i32, is_string: true, re: Re::Lit(vec![x, y, z]) },
+            Tok { prec: 0, is_string: false, re: Re::Seq(Box::new(Re::Lit(vec![x])), Box::new(Re::Plus(Box::new(Re::Lit(vec![y]))))) },
+        ];
+        for t in fam {
+            if let Re::Lit(v) = &t.re { if lits.contains(v) { continue; } lits.push(v.clone()); }
+            let at = rng.below(toks.len() + 1);
+            toks.insert(at, t);
         }
     }
     let mut word = None;
@@ -363,7 +379,7 @@ fn main() {
     if let Some(c) = zoo_corpus("c14") { run_specs(&c, "c", &mut out); }
     let mut rng = Rng::new(seed_from_env());
     let thorough = tier_is_thorough();
-    let (n_sets, full_len, n_len_next, n_long) = if thorough { (160, 5, 6000, 600) } else { (30, 4, 1500, 250) };
+    let (n_sets, full_len, n_len_next, n_long) = if thorough { (160, 5, 6000, 600) } else { (60, 4, 1500, 250) };
     let mut syms: Vec<u32> = ALPHA.to_vec();
     syms.push(0x20);
     let (mut built, mut rejected, mut total) = (0usize, 0usize, 0usize);
